@@ -12,7 +12,7 @@ CONSTANTS
   Slack = 2
   FU = 32
   Ver = 1
-  MaxCalls = 6
+  MaxCalls = 5
   MCToks = {"t1"}
 SPECIFICATION MCFairSpec
 INVARIANT SlotType TableInv ProbeBounded TablesDisjointFromData NoDamage
